@@ -1,5 +1,7 @@
 import MpireModel.Model.Dispatch
 import MpireModel.Proofs.Dispatch
+import MpireModel.Model.History
+import MpireModel.Proofs.History
 /-!
 # C16 — order_tasks assigns chunk i to worker i mod n_jobs
 -/
@@ -16,6 +18,20 @@ theorem assign_round_robin (n : Nat) (ops : List AOp) :
 theorem assign_in_range (orderTasks : Bool) (n : Nat) (hn : 0 < n) (a : Assign) (h : ∀ w ∈ a.lastCompleted, w < n) :
     (assign orderTasks n a).1 < n ∧ ∀ w ∈ (assign orderTasks n a).2.lastCompleted, w < n :=
   Mpire.Proofs.Dispatch.assign_in_range orderTasks n hn a h
+
+/-- "numbering restarts at 0 with every call": whatever happened on the pool before — calls with any outcome, apply
+batches (which advance the same counter), setters, joins — the assignment state a call starts dispatching with has its
+counter at 0, so its i-th chunk goes to worker `i mod n` for every interleaving of assignments and result arrivals. -/
+theorem every_call_numbers_from_zero (hist : List Mpire.History.Op) (ordered : Bool) (p : Mpire.History.ParamsId)
+    (s1 : Mpire.History.Ctl) (h : Mpire.History.callStart (Mpire.History.runOps {} hist) ordered p = some s1)
+    (n : Nat) (ops : List AOp) :
+    ∀ q ∈ runOps true n { taskIdx := s1.taskIdx, lastCompleted := s1.lastCompleted } 0 ops, q.2 = q.1 % n := by
+  have hf := Mpire.Proofs.History.fresh_at_call_start hist ordered p s1 h
+  exact Mpire.Proofs.Dispatch.assign_round_robin n ops _ 0 hf.2.2.1
+
+/-- the hypothesis is met after a history that contains apply batches -/
+example : ((Mpire.History.callStart (Mpire.History.runOps {} [.apply 1 (.settled 5 [0, 1]), .call false 2 (.ok 3 [1])]) true 3).map
+    (fun s => (s.taskIdx, s.lastCompleted))) = some (0, []) := by decide +kernel
 
 example : runOps true 3 reset 0 [.assign, .completed 2, .assign, .assign, .completed 0, .assign, .reset, .assign] =
     [(0, 0), (1, 1), (2, 2), (3, 0), (0, 0)] := by decide +kernel
